@@ -425,29 +425,29 @@ theorem contains_crash_cE : ∀ (cmds : List Cmd), cmds.contains .crash = (cmds.
 
 theorem cE_exit_id {c : Cmd} (h : c.isExit = true) : cE c = c := by cases c <;> simp_all [Cmd.isExit, cE]
 
-theorem lastExit_cE (cmds : List Cmd) : lastExit cmds = lastExit (cmds.map cE) := by
-  unfold lastExit
+theorem lastExitOf_cE (cmds : List Cmd) : lastExitOf cmds = lastExitOf (cmds.map cE) := by
+  unfold lastExitOf
   rw [List.filter_map]
   have : (Cmd.isExit ∘ cE) = Cmd.isExit := funext cE_isExit
   rw [this, map_eq_self cE _ (fun c hc => cE_exit_id (List.mem_filter.mp hc).2)]
 
 /-- **a whole replay, two clocks**: both raise or neither does; the rebuilt states agree up to
 `first_attempt_at` of in-progress entries and the remembered exit command is the same -/
-theorem replayFrom_sim (cfg : Cfg) {pol : Policy} (hp : TimeIndep pol) (now now' : Int) :
+theorem tmReplayFrom_sim (cfg : Cfg) {pol : Policy} (hp : TimeIndep pol) (now now' : Int) :
     ∀ (l : List Tick) {st st' : State} (ex : Option Cmd), Sim st st' →
-      match replayFrom cfg pol now l (st, ex), replayFrom cfg pol now' l (st', ex) with
+      match tmReplayFrom cfg pol now l (st, ex), tmReplayFrom cfg pol now' l (st', ex) with
       | some (a, e), some (b, e') => Sim a b ∧ e = e'
       | none, none => True
       | _, _ => False
-  | [], st, st', ex, h => by simpa [replayFrom] using h
+  | [], st, st', ex, h => by simpa [tmReplayFrom] using h
   | t :: l, st, st', ex, h => by
     obtain ⟨h1, c1⟩ := reduce_sim cfg hp t now now' h
-    simp only [replayFrom]
-    rw [contains_crash_cE, c1, ← contains_crash_cE, lastExit_cE, c1, ← lastExit_cE]
+    simp only [tmReplayFrom]
+    rw [contains_crash_cE, c1, ← contains_crash_cE, lastExitOf_cE, c1, ← lastExitOf_cE]
     by_cases hc : (reduce cfg pol t st' now').2.contains Cmd.crash = true
     · simp only [hc, if_true]
     · simp only [hc, if_false]
-      exact replayFrom_sim cfg hp now now' l _ h1
+      exact tmReplayFrom_sim cfg hp now now' l _ h1
 
 theorem rewindLoop_empty (now : Int) :
     ∀ (cs : List StepCfg) (st : State) (cmds : List Cmd), (∀ n, st.workers n = {}) →
@@ -471,12 +471,12 @@ theorem rewind_init_sim (cfg : Cfg) (now now' : Int) :
   simp only [rewind, h1 n, h2 n]
   exact SSim.rfl' _
 
-theorem replayAt_sim (cfg : Cfg) {pol : Policy} (hp : TimeIndep pol) (ticks : List Tick) (now now' : Int) :
-    match replayAt cfg pol ticks now, replayAt cfg pol ticks now' with
+theorem tmReplayAt_sim (cfg : Cfg) {pol : Policy} (hp : TimeIndep pol) (ticks : List Tick) (now now' : Int) :
+    match tmReplayAt cfg pol ticks now, tmReplayAt cfg pol ticks now' with
     | some (a, e), some (b, e') => Sim a b ∧ e = e'
     | none, none => True
     | _, _ => False :=
-  replayFrom_sim cfg hp now now' ticks none (rewind_init_sim cfg now now')
+  tmReplayFrom_sim cfg hp now now' ticks none (rewind_init_sim cfg now now')
 
 /-- `to_serialized` writes in-progress invocations as bare events: the reloaded context does not
 see `first_attempt_at` -/
@@ -501,17 +501,17 @@ def replayRec (cfg : Cfg) (pol : Policy) : List (Tick × Int) → State × Optio
   | (t, n) :: ts, acc =>
     let r := reduce cfg pol t acc.1 n
     if r.2.contains .crash then none
-    else replayRec cfg pol ts (r.1, match lastExit r.2 with | some c => some c | none => acc.2)
+    else replayRec cfg pol ts (r.1, match lastExitOf r.2 with | some c => some c | none => acc.2)
 
-theorem replayFrom_eq_replayRec (cfg : Cfg) (pol : Policy) (now : Int) :
+theorem tmReplayFrom_eq_replayRec (cfg : Cfg) (pol : Policy) (now : Int) :
     ∀ (l : List Tick) (acc : State × Option Cmd),
-      replayFrom cfg pol now l acc = replayRec cfg pol (l.map (fun t => (t, now))) acc
+      tmReplayFrom cfg pol now l acc = replayRec cfg pol (l.map (fun t => (t, now))) acc
   | [], acc => rfl
   | t :: l, acc => by
-    simp only [replayFrom, List.map_cons, replayRec]
+    simp only [tmReplayFrom, List.map_cons, replayRec]
     split
     · rfl
-    · exact replayFrom_eq_replayRec cfg pol now l _
+    · exact tmReplayFrom_eq_replayRec cfg pol now l _
 
 theorem replayRec_sim (cfg : Cfg) {pol : Policy} (hp : TimeIndep pol) :
     ∀ (l l' : List (Tick × Int)) {st st' : State} (ex : Option Cmd), l.map (·.1) = l'.map (·.1) → Sim st st' →
@@ -528,7 +528,7 @@ theorem replayRec_sim (cfg : Cfg) {pol : Policy} (hp : TimeIndep pol) :
     subst ht
     obtain ⟨h1, c1⟩ := reduce_sim cfg hp t n n' h
     simp only [replayRec]
-    rw [contains_crash_cE, c1, ← contains_crash_cE, lastExit_cE, c1, ← lastExit_cE]
+    rw [contains_crash_cE, c1, ← contains_crash_cE, lastExitOf_cE, c1, ← lastExitOf_cE]
     by_cases hc : (reduce cfg pol t st' n').2.contains Cmd.crash = true
     · simp only [hc, if_true]
     · simp only [hc, if_false]
@@ -561,7 +561,7 @@ theorem execCmd_outcome_some (r : Runner) (c : Cmd) (h : r.outcome.isSome = true
 
 /-- a batch of commands that leaves the run without outcome contained no exit command -/
 theorem execCmds_outcome_none : ∀ (cmds : List Cmd) (r : Runner), (execCmds r cmds).outcome = none →
-    lastExit cmds = none
+    lastExitOf cmds = none
   | [], r, _ => rfl
   | c :: cs, r, h => by
     simp only [execCmds] at h
@@ -571,7 +571,7 @@ theorem execCmds_outcome_none : ∀ (cmds : List Cmd) (r : Runner), (execCmds r 
       have hc : c.isExit = false := by
         cases c <;> simp_all [execCmd, Runner.finish, Cmd.isExit]
       have := execCmds_outcome_none cs _ h
-      simp only [lastExit, List.filter_cons, hc] at this ⊢
+      simp only [lastExitOf, List.filter_cons, hc] at this ⊢
       simpa using this
 
 /-- as long as the live run has no outcome, reducing its log tick by tick (each at its recorded
